@@ -27,6 +27,13 @@ impl FqVarExtension for FqVar {
     /// - Case 3: `(false, 0)` if `den` is zero;
     /// - Case 4: `(false, sqrt(zeta*num/den))` if `num` and `den` are both nonzero and `num/den` is nonsquare;
     fn isqrt(&self) -> Result<(Boolean<Fq>, FqVar), SynthesisError> {
+        // A constant carries no constraint system to witness hints into: its inverse square root is
+        // computed out of circuit and is a constant as well (no constraints are needed).
+        if self.is_constant() {
+            let (was_square, y) = Fq::sqrt_ratio_zeta(&Fq::ONE, &self.value()?);
+            return Ok((Boolean::constant(was_square), FqVar::constant(y)));
+        }
+
         // During mode `SynthesisMode::Setup`, value() will not provide a field element.
         let den = self.value().unwrap_or(Fq::ONE);
 
